@@ -38,6 +38,14 @@ RULE = ("(A) aliasing scenario = (constructor, cache state from 0-3 reads, deriv
         "(several argument variants each), deep snapshots of all arguments compared bit for bit; functions whose arguments "
         "could not be synthesised are listed in notes.uncovered; non-trivial = B was really mutated / the call returned normally")
 
+T_ = "evo/core/trajectory.py:"
+MODELLED = [T_ + "PosePath3D." + f for f in ("__init__", "positions_xyz", "orientations_quat_wxyz", "poses_se3", "transform", "scale",
+                                              "project", "reduce_to_ids", "_jumps", "split_distance_gaps")] \
+    + [T_ + "PoseTrajectory3D." + f for f in ("__init__", "reduce_to_ids", "split_time_gaps", "split_distance_gaps",
+                                                "split_speed_outliers")] \
+    + [T_ + "merge", T_ + "xyz_quat_wxyz_to_se3_poses", T_ + "se3_poses_to_xyz_quat_wxyz",
+       "evo/core/sync.py:associate_trajectories", "evo/core/sync.py:matching_time_indices", "evo/core/result.py:merge_results"]
+
 MUT = ("tf", "sc", "red", "pj", "al", "mf", "ao", "ds")
 DERIVS = ("copy", "assoc", "merge", "split_time", "split_dist", "split_speed", "self")
 
@@ -144,7 +152,9 @@ def apply_op(obj, op, toks):
         toks.append(f"sc {rat(op['s'])}")
     elif k in ("red", "ds"):
         if k == "red":
-            ids = sorted(set(int(f * n) for f in op["sel"])) if n else []
+            ids = H.red_ids(op, n)
+            if not ids:                      # the derived object stays non-empty in these scenarios
+                ids = [0] if n else []
         else:
             N = max(1, op["n"])
             ids = [int(i) for i in np.linspace(0, n - 1, N, dtype=int)] if n > N else None
@@ -917,6 +927,7 @@ def shrink(case):
 
 def check(ctx):
     lean = core.lean_side(ctx.prop, ctx.tier)
+    core.drift(ctx, MODELLED)
     cases = list(gen_scenarios(ctx))
     evaluate(ctx, cases)
     run_frames(ctx)
